@@ -1,23 +1,25 @@
 #!/bin/bash
 # seedrun.sh <seeded-dir> [Cxx ...]
-# Applies <seeded-dir>/patch.diff to a scratch worktree of /repo HEAD (never to /repo itself while builders
-# are active), runs the demo, then the given checks (default: the property in meta.json) against that
-# worktree via VERIF_REPO, prints the outcome, and removes the worktree.
+# Validates a seeded change and runs checks against it WITHOUT touching /repo or /verif:
+#   scratch worktree of /repo HEAD + patch, scratch copy of /verif (incl. its lake build), VERIF_REPO pointing at the worktree.
+# (The final confirmation against /repo itself — git -C /repo apply; ./check; git -C /repo checkout -- . — is seedfinal.sh.)
 set -u
 D="$(cd "$1" && pwd)"; shift
 PROP=$(python3 -c "import json;print(json.load(open('$D/meta.json'))['property'])")
 CHECKS="${*:-$PROP}"
-W=/tmp/seed/run-$$; mkdir -p /tmp/seed
+W=/tmp/seed/run-$$; V=/tmp/seed/verif-$$; mkdir -p /tmp/seed
 git -C /repo worktree add --detach "$W" HEAD >/dev/null 2>&1 || { echo "cannot create worktree"; exit 2; }
-trap 'git -C /repo worktree remove --force "$W" >/dev/null 2>&1; git -C /repo worktree prune' EXIT
+trap 'git -C /repo worktree remove --force "$W" >/dev/null 2>&1; git -C /repo worktree prune; rm -rf "$V"' EXIT
+mkdir -p "$V"; git -C /verif archive HEAD | tar -x -C "$V"; rsync -a /verif/lean/.lake "$V"/lean/   # committed machinery + a copy of the build cache
 ( cd "$W" && PYTHONPATH="$W" /venv/bin/python "$D"/demo.py >/dev/null 2>&1 ); echo "demo on clean tree: rc=$? (want 0)"
 git -C "$W" apply "$D/patch.diff" || { echo "patch does not apply"; exit 2; }
 ( cd "$W" && PYTHONPATH="$W" /venv/bin/python "$D"/demo.py >/dev/null 2>&1 ); echo "demo on changed tree: rc=$? (want non-zero)"
 echo "pinned suite on changed tree: $(/venv/bin/python /verif/harness/baseline.py "$W" | head -1)"
-cd /verif
+cd "$V"
 for c in $CHECKS; do
   out=$(VERIF_REPO="$W" ./check "$c" 2>&1); rc=$?
-  echo "check $c on changed tree: rc=$rc | $(echo "$out" | grep '^VIOLATION' | head -3 | tr '\n' ';') $(echo "$out" | tail -1 | cut -c1-140)"
+  echo "check $c on changed tree: rc=$rc | $(echo "$out" | grep -c '^VIOLATION') VIOLATION lines; $(echo "$out" | grep '^VIOLATION' | head -2 | sed 's/.*replay=//' | tr '\n' ' ') | $(echo "$out" | tail -1 | cut -c1-150)"
+  for r in $(echo "$out" | grep '^VIOLATION' | head -2 | sed 's/.*replay=\([^ ]*\).*/\1/'); do
+    python3 -c "import json;d=json.load(open('$r'));print('   replay:',d.get('kind'),d.get('signature') or d.get('link'),'|',str(d.get('what') or d.get('theorem'))[:140])"
+  done
 done
-# restore generated tables / build for the real tree
-for c in $CHECKS; do ./check "$c" >/dev/null 2>&1; echo "check $c back on /repo: rc=$?"; done
